@@ -173,9 +173,11 @@ CLAIMED = {
    text="Theorems over GENERATED tables (svf table, STANDARD set, every flag test of the executed interpreter code): 21 distinct names with "
         "distinct single-bit values covering exactly the enum; +NAME sets / -NAME clears exactly that bit; known tokens fold, unknown names / "
         "missing sign / empty tokens are rejected; --default-flags lists exactly the standard set; every flag test has a restrictive shape; "
-        "each flag-dependent check (number minimality, signature and key encoding) passes under A whenever it passes under B >= A. PARTIAL "
-        "(stated): whole-execution monotonicity is not one theorem; it is evaluated on paired runs of the implementation under inclusion "
-        "chains. Tie: -d and -f<list> -v listings (pty), behavioural probes per flag, flag-chain sessions vs model.",
+        "each flag-dependent check (number minimality, signature and key encoding) passes under A whenever it passes under B >= A; and the "
+        "WHOLE STEP: whatever one interpreter step does successfully under a flag set B (any opcode incl. the signature opcodes and "
+        "CHECKMULTISIG, any stack, any version, in the script or through exec) it does identically under every subset A of B "
+        "(C09_step_only_restricts). Session-level flags (P2SH phases, SIGPUSHONLY, witness configuration) are outside that theorem and are "
+        "evaluated on paired runs of the implementation under inclusion chains. Tie: -d and -f<list> -v listings (pty), behavioural probes per flag, flag-chain sessions vs model.",
    note=TB + "svf_string's output separator/bullets are parsed by the check, not modelled.",
    technique="Coq proofs over translator-generated flag tables and sites + CLI correspondence + paired-run monotonicity relation",
    ref="DESIGN.md §2 C09"),
